@@ -26,6 +26,7 @@ type Res struct {
 	Keep   bool    `json:"keep_bind,omitempty"`
 	CPU    float64 `json:"cpu"`
 	Memory int64   `json:"memory"`
+	Slots  int64   `json:"slots,omitempty"` // request to the second plugin (plugin layer only; a delta in re-allocations)
 }
 
 // Raw converts to the plugin's request.
@@ -37,7 +38,11 @@ func (r Res) Raw() resourcetypes.Resources {
 	if r.Keep {
 		p["keep-cpu-bind"] = true
 	}
-	return resourcetypes.Resources{"cpumem": p}
+	out := resourcetypes.Resources{"cpumem": p}
+	if r.Slots != 0 {
+		out[SlotsName] = resourcetypes.RawParams{"slots-request": r.Slots}
+	}
+	return out
 }
 
 // Op is one cluster API call.
